@@ -90,6 +90,7 @@ type loopInfo struct {
 	modAll   bool
 	hdrState *State
 	decVal   string // measure at header
+	decVals  []string
 	pos      token.Pos
 }
 
